@@ -417,10 +417,26 @@ func runRuns(sp spec, deadline time.Time, r *hk.JobResult) {
 // ---------------------------------------------------------------------------
 // E2: histories
 
-var dseqs = []int{+1, +2, +15, 0, -1, -3, +0x2001, +0x7FFE, +0x7FFF, +0x8001}
-var dts = []int64{0, 100, 300, 64_000, 8_200_000, 600_000, -1_000, -8_200_000, 180_000_000}
+var dseqs = []int{+1, +2, +15, 0, -1, -3, +0x2001, +0x7FFE, +0x7FFF, +0x8001, +600, +1500, +150, +151, +300, -100, -129, -257} // from index 10 on: scripted histories only
+var dts = []int64{0, 100, 300, 64_000, 8_200_000, 600_000, -1_000, -8_200_000, 180_000_000, 400_000}                           // index 9: scripted histories only
 
 const symBuild = 1000
+
+// shrinkScripts: first packet; a jump of 600/1500 numbers 400 ms later; 150/151/300 more 300 us later; Build;
+// the next number 400 ms later (the first packet leaves the history, the ring shrinks); a late packet 3 / 100
+// numbers back; Build.
+func shrinkScripts() [][]int {
+	sym := func(ds, dt int) int { return ds*len(dts) + dt }
+	var out [][]int
+	for _, j1 := range []int{10, 11} {
+		for _, j2 := range []int{12, 13, 14} {
+			for _, late := range []int{5, 15, 16, 17} { // -3, -100, and one ring size (128 / 256) behind a received packet
+				out = append(out, []int{sym(0, 2), sym(j1, 9), sym(j2, 2), symBuild, sym(0, 9), sym(late, 2), symBuild})
+			}
+		}
+	}
+	return out
+}
 
 func symName(a int) string {
 	if a == symBuild {
@@ -638,9 +654,12 @@ var startPoints = []startPoint{{0, 0}, {65530, 1_000_000_000}, {32760, refModUS 
 
 func historySpecs(thorough bool) []spec {
 	var out []spec
-	allS, allT := allIdx(len(dseqs)), allIdx(7) // the seven steps of DESIGN.md; -8.2 s and +3 min are used in one thorough job set only
-	near := []int{0, 1, 3, 4, 5}                // +1 +2 0 -1 -3
-	jumps := []int{0, 4, 6, 7}                  // +1 -1 +0x2001 +0x7FFE with {+300 us, +600 ms}: growing, culling and shrinking the arrival map
+	for _, st := range startPoints {
+		out = append(out, spec{Part: "script", Start: st.seq, T0: st.t0})
+	}
+	allS, allT := allIdx(10), allIdx(7) // the seven steps of DESIGN.md; -8.2 s and +3 min are used in one thorough job set only
+	near := []int{0, 1, 3, 4, 5}        // +1 +2 0 -1 -3
+	jumps := []int{0, 4, 6, 7}          // +1 -1 +0x2001 +0x7FFE with {+300 us, +600 ms}: growing, culling and shrinking the arrival map
 	for i, st := range startPoints {
 		h := func(depth int, ds, dt []int, shards int) {
 			out = append(out, shard(spec{Part: "history", Start: st.seq, T0: st.t0, Depth: depth, DS: ds, DT: dt}, shards)...)
@@ -718,6 +737,22 @@ func run(tier string, i int, deadline time.Time) *hk.JobResult {
 		r.Bounds["runs"] = sp.Runs
 		r.Bounds["lens"] = sp.Lens
 		runRuns(sp, deadline, r)
+	case "script":
+		// fixed histories that let the arrival-time history grow beyond 512 numbers, lose its old end 500 ms
+		// later (the ring shrinks to a range that is not a power of two) and then take a late packet
+		n := 0
+		for _, h := range shrinkScripts() {
+			st := execHistory(sp, h)
+			n++
+			r.Executions++
+			r.States++
+			r.Transitions += int64(len(h))
+			r.Nontrivial++
+			if st.Violation != nil && len(r.Violations) < 4 {
+				r.Violations = append(r.Violations, *st.Violation)
+			}
+		}
+		r.Bounds["scripts"] = n
 	case "history":
 		r.Bounds["depth"] = sp.Depth
 		runSearch(sp, deadline, r, execHistory)
@@ -753,13 +788,13 @@ func replayFn(raw json.RawMessage) string {
 		if f != nil {
 			return fmt.Sprintf("runs %s, %s: %s", runsString(c.Runs), fl.Name, f.Msg)
 		}
-	case "history", "interceptor":
+	case "history", "interceptor", "script":
 		var c e2case
 		_ = json.Unmarshal(raw, &c)
 		// every prefix is checked, so that a replay also reports a failure that precedes the last step
 		for n := 1; n <= len(c.Syms); n++ {
 			var st hk.Step
-			if c.Spec.Part == "history" {
+			if c.Spec.Part == "history" || c.Spec.Part == "script" {
 				st = execHistory(c.Spec, c.Syms[:n])
 			} else {
 				st = execIcpt(c.Spec, c.Syms[:n])
